@@ -35,7 +35,7 @@ MINIMUMS = {
     "quick": {"double_runs": 60, "scheduler_died_early": 40, "jobs_checked": 120, "coarse_phases": 15, "adoptions_observed": 4, "restarts_with_failing_job": 4},
     "thorough": {"double_runs": 1200, "scheduler_died_early": 800, "jobs_checked": 2400, "coarse_phases": 36, "adoptions_observed": 200},
 }
-TIMEOUT = {"quick": 1500, "thorough": 14400}
+TIMEOUT = {"quick": 2400, "thorough": 14400}
 FILES = "experimaestro/scheduler/base.py,experimaestro/commandline.py,experimaestro/connectors/local.py,experimaestro/tokens.py,experimaestro/scriptbuilder.py,experimaestro/locking.py"
 QUAL = "Scheduler.aio_submit,Scheduler.aio_start,Scheduler.aio_registerJob,CommandLineJob.aio_run,CommandLineJob.aio_process,CommandLineJob.prepare,LocalProcessBuilder.start,CounterToken.acquire,CounterToken.release,TokenFile.create,PythonScriptBuilder.write,Locks._release"
 
